@@ -60,9 +60,11 @@ def cc(ctx, src, target="x86_64-sysv", variant="plain", args=(), timeout=20, env
 
 
 _ASAN = re.compile(rb"ERROR: AddressSanitizer: ([A-Za-z0-9_-]+)")
-_UBSAN = re.compile(rb"([A-Za-z0-9_.]+\.[ch]):(\d+):(\d+): runtime error: ([^\n]*)")
+# (bounded repetitions: stderr can hold a diagnostic that quotes a token of a megabyte, and an unbounded [A-Za-z0-9_.]+ in
+# front of a literal makes the search quadratic in the length of such a run)
+_UBSAN = re.compile(rb"(?<![A-Za-z0-9_.])([A-Za-z0-9_.]{1,80}\.[ch]):(\d{1,9}):(\d{1,9}): runtime error: ([^\n]{0,400})")
 _FRAME = re.compile(rb"#\d+ 0x[0-9a-f]+ in (\w+) (?:/[^\n ]*/)?([A-Za-z0-9_]+\.[ch])\b")
-_ASSERT = re.compile(rb"([A-Za-z0-9_.]+\.c):(\d+): ([^\n]*?): Assertion `([^\n]*)' failed")
+_ASSERT = re.compile(rb"(?<![A-Za-z0-9_.])([A-Za-z0-9_.]{1,80}\.c):(\d{1,9}): ([^\n]{0,300}?): Assertion `([^\n]{0,400})' failed")
 
 
 def classify(p):
